@@ -126,11 +126,48 @@ theorem bucket_bound (b : Bucket) (dts : List Nat) (hb : b.tok ≤ b.cap) :
   unfold Bucket.cap at hb
   omega
 
-/-- ✦ facts of the current source: the order in which `rule()` consults the rule sets -/
+/-- **update_follows_rule.**  Whatever a cached limiter was before (any sequence of earlier rules), after
+`Update` to a rule it lets everything through exactly when the rule is "no limit", refuses everything
+exactly when the rule is blocking, and otherwise runs the rule's token bucket. -/
+theorem update_follows_rule (r : Lim) (k : Kind) :
+    (updateLim true r k) = newLim k ∨ (∃ l b, k = .bucket l b ∧ r.limiter = some (l, b) ∧ updateLim true r k = r) := by
+  cases k with
+  | nolimit => left; simp [updateLim, newLim]; cases r.limiter <;> simp
+  | blocked => left; simp [updateLim, newLim]; cases r.limiter <;> simp
+  | bucket l b =>
+    cases hr : r.limiter with
+    | none => left; simp [updateLim, newLim, hr]
+    | some p =>
+      obtain ⟨l', b'⟩ := p
+      by_cases h : l' = l ∧ b' = b
+      · right
+        obtain ⟨rfl, rfl⟩ := h
+        exact ⟨l', b', rfl, rfl, by simp [updateLim, hr]⟩
+      · left
+        simp [updateLim, newLim, hr, h]
+
+theorem update_chain_follows_last (r : Lim) (ks : List Kind) (k : Kind) (hk : k = .nolimit ∨ k = .blocked) :
+    allowsWithoutBucket (updateLim true (ks.foldl (updateLim true) r) k) = some (decide (k = .nolimit)) := by
+  rcases hk with rfl | rfl
+  · rcases update_follows_rule (ks.foldl (updateLim true) r) .nolimit with h | ⟨l, b, h, _⟩
+    · rw [h]; rfl
+    · cases h
+  · rcases update_follows_rule (ks.foldl (updateLim true) r) .blocked with h | ⟨l, b, h, _⟩
+    · rw [h]; rfl
+    · cases h
+
+/-- without the reset in the blocking branch (a seeded change), "no limit" followed by a blocking rule keeps
+letting everything through -/
+theorem nolimit_then_blocked_witness :
+    allowsWithoutBucket (updateLim false (newLim .nolimit) .blocked) = some true ∧
+    allowsWithoutBucket (updateLim true (newLim .nolimit) .blocked) = some false := by decide
+
+/-- ✦ facts of the current source: the order in which `rule()` consults the rule sets, the limiter update -/
 theorem facts_ok :
     Gen.C36.extractErrors = [] ∧ Gen.C36.ruleOrder = ["clientid", "net", "node", "suffrage", "defaultmap", "default"] ∧
+    Gen.C36.updateSetsBothFields = true ∧ Gen.C36.allowFollowsFlagWithoutLimiter = true ∧ Gen.C36.membershipBeforeHash = true ∧
     Gen.C36.pins = Pins.C36 := by
-  refine ⟨by decide, by decide, by decide⟩
+  refine ⟨by decide, by decide, by decide, by decide, by decide, by decide⟩
 
 example : ({ num := 1, den := 10, burst := 3, tok := 30 } : Bucket).run [0, 0, 0, 0, 5, 5, 20] = 5 := by decide
 
